@@ -133,15 +133,36 @@ INT_POOLS = {
 }
 
 
+def _pool(kind, n):
+    """at least n distinct names of the given kind (the hand-picked pools hold 16; more are derived)"""
+    if kind == "str":
+        pool = list(STR_POOL_SIMPLE)
+    elif kind == "strodd":
+        pool = list(STR_POOL_ODD)
+    else:
+        pool = list(INT_POOLS[kind])
+    k = 0
+    while len(pool) < n:
+        if isinstance(pool[0], str):
+            cand = "%s%s" % (STR_POOL_SIMPLE[k % 16], STR_POOL_SIMPLE[(k // 16 + 1) % 16]) + ("" if kind == "str" else " x")
+        elif kind in ("mult8", "mult32"):
+            cand = (8 if kind == "mult8" else 32) * (16 + k)
+        elif kind == "negs":
+            cand = -(20 + k)
+        elif kind == "big":
+            cand = 2 ** 61 + 100 + 8 * k
+        else:
+            cand = 17 + k
+        if cand not in pool:
+            pool.append(cand)
+        k += 1
+    return pool
+
+
 @st.composite
 def element_names(draw, n, kinds=("dense", "dense1", "mult8", "mult32", "negs", "big", "str", "strodd")):
     kind = draw(st.sampled_from(kinds))
-    if kind == "str":
-        pool = STR_POOL_SIMPLE
-    elif kind == "strodd":
-        pool = STR_POOL_ODD
-    else:
-        pool = INT_POOLS[kind]
+    pool = _pool(kind, n)
     perm = draw(st.permutations(pool))
     return kind, list(perm[:n])
 
@@ -206,6 +227,7 @@ def datasets(draw, max_n=7, max_m=5, min_n=1, shapes=None, kinds=None, allow_emp
         kind, names = draw(element_names(n))
     else:
         kind, names = draw(element_names(n, kinds))
+    n = len(names)
     rankings = []
     if shape == "complete":
         for _ in range(m):
